@@ -55,3 +55,20 @@ Definition accepted (d : desc) : bool := is_ok (run sp_nx d).
 Example examples_accepted :
   forallb accepted [ex_star ID; ex_star SRC; ex_mesh XY; ex_mesh ID; ex_mesh SRC; ex_tree ID; ex_tree SRC] = true.
 Proof. vm_compute. reflexivity. Qed.
+
+(* a narrow-wide star: two endpoints with both roles and one subordinate-only memory *)
+Definition mkpw (name : string) (ty : string) (dw idw : Z) : proto :=
+  {| p_name := name; p_type := Some ty; p_data := dw; p_addr := 48; p_id := idw; p_user := 1; p_prefix := None |}.
+Definition nw_protos : list proto :=
+  [mkpw "narrow_in" "narrow" 64 4; mkpw "narrow_out" "narrow" 64 2; mkpw "wide_in" "wide" 512 3; mkpw "wide_out" "wide" 512 1].
+Definition mkepw (name : string) (rs : list range_spec) (m s : bool) : ep_desc :=
+  {| ep_name := name; ep_array := None; ep_ranges := rs;
+     ep_mgr := if m then Some ["narrow_in"; "wide_in"] else None; ep_sbr := if s then Some ["narrow_out"; "wide_out"] else None |}.
+Definition ex_nw (a : algo) : desc :=
+  {| d_name := "nwstar"; d_nw := true; d_algo := a; d_use_table := true; d_protos := nw_protos;
+     d_eps := [mkepw "cpu" [rspec 0 4096] true true; mkepw "acc" [rspec 8192 4096] true true; mkepw "mem" [rspec 65536 65536] false true];
+     d_rts := [{| rt_name := "router"; rt_array := None; rt_tree := None; rt_auto := true; rt_degree := None |}];
+     d_conns := [mkconn "mem" "router"; mkconn "cpu" "router"; mkconn "router" "acc"] |}.
+
+Example ex_nw_accepted : forallb accepted [ex_nw ID; ex_nw SRC] = true.
+Proof. vm_compute. reflexivity. Qed.
